@@ -451,7 +451,7 @@ impl Runner {
             paths.sort();
             for p in paths {
                 if let Ok(t) = std::fs::read_to_string(&p) {
-                    if let Ok(j) = serde_json::from_str::<J>(&t) {
+                    if let Ok(j) = from_json_unbounded::<J>(t.as_bytes()) {
                         if j.get("family").and_then(|f| f.as_str()) == Some(family) {
                             if let Some(c) = j.get("case") {
                                 out.push((p.clone(), c.clone()));
@@ -791,12 +791,21 @@ fn union_count(dir: &PathBuf, nshards: usize) -> u64 {
     count
 }
 
+/// serde_json without its 128-level recursion limit: generated cases (long operator chains) nest deeper than that
+pub fn from_json_unbounded<T: serde::de::DeserializeOwned>(text: &[u8]) -> Result<T, serde_json::Error> {
+    let mut de = serde_json::Deserializer::from_slice(text);
+    de.disable_recursion_limit();
+    let v = T::deserialize(&mut de)?;
+    de.end()?;
+    Ok(v)
+}
+
 pub fn merge_and_report(prop: &str, tier: Tier, seed: u64, root: &PathBuf, nshards: usize, wall_s: f64) -> i32 {
     let dir = work_dir(root, prop);
     let known = KnownFindings::load(root);
     let mut parts: Vec<Part> = vec![];
     for k in 0..nshards {
-        match std::fs::read(dir.join(format!("part.{k}.json"))).ok().and_then(|b| serde_json::from_slice::<Part>(&b).ok()) {
+        match std::fs::read(dir.join(format!("part.{k}.json"))).ok().and_then(|b| from_json_unbounded::<Part>(&b).ok()) {
             Some(p) => parts.push(p),
             None => {
                 println!("INCONCLUSIVE property={prop} shard {k} produced no result");
